@@ -30,6 +30,10 @@ FRAGS = ["", "#f"]
 EMPTY_HOST = ["x://u:p@:8042/p", "//u@:80/x?a=1", "x://:8042/p#f", "//@/x", "foo://user:pw@:8042/p?q=1#frag", "x://u@/a/b.txt"]
 
 
+VERBATIM = ["http://example.com:0080/p?q=1#f", "http://user:pw@example.com:08080/p", "http://[::1]:0443/p", "http://user:pw@example.com:/p?q=1#f",
+            "https://h:00443/", "x://u@h:007/a/b.txt", "http://h:/"]
+
+
 def ops():
     out = []
     for s in ["https", "HTTP", "x", "ws"]:
@@ -84,6 +88,22 @@ def run(ctx):
         for kind, kq, kf, isnone, op in OPS:
             reqs.append(("observe", [0, [["push", ["url", bases[bi]]], ["op", "pickle"], op]]))
             meta.append((bi, kind, kq, kf, isnone))
+    # receivers whose authority is stored verbatim (encoded=True) with a port spelled non-canonically or left empty
+    enc_before = core.check_suite(ctx, "C11-verbatim-bases", [("observe", [0, [["push", ["enc", b]]]]) for b in VERBATIM], split=True)
+    enc_reqs, enc_meta = [], []
+    for bi, b in enumerate(VERBATIM):
+        for kind, kq, kf, isnone, op in OPS:
+            enc_reqs.append(("observe", [0, [["push", ["enc", b]], op]]))
+            enc_meta.append((bi, kind, kq, kf, isnone))
+    enc_after = core.check_suite(ctx, "C11-verbatim-modifiers", enc_reqs, split=True)
+    for k in [k for k in enc_after if k != "model"]:
+        args = [" ".join([enc(kind), enc(kq), enc(kf), enc(isnone), enc_before[k][bi], enc_after[k][i]])
+                for i, (bi, kind, kq, kf, isnone) in enumerate(enc_meta)]
+        ok = core.eval_pred(ctx, "c11_pred", args)
+        core.record_failures(ctx, "C11-verbatim-modifiers", "c11_pred", ok,
+                             lambda m, k=k: {"backend": k, "base": VERBATIM[enc_meta[m][0]], "program": enc_reqs[m][1][1],
+                                             "before": enc_before[k][enc_meta[m][0]], "after": enc_after[k][m]},
+                             kf=core.kf_list(ctx), arglines=args)
     after = core.check_suite(ctx, "C11-modifiers", reqs, split=True,
                              nontrivial=lambda rs: {repr(a) for _, a in rs},
                              classes={"bases": len(bases), "modifier_calls_per_base": len(OPS)})
